@@ -126,43 +126,51 @@ theorem T11_2_setBitVartime (p : Profile) (a : List Nat) (index : Nat) (v : Bool
 theorem T11_2_setBitVartimeOld_witness (p : Profile) : isPanic (setBitVartimeOldD p [0] 64 true) = true := by
   cases p with | mk d => cases d <;> rfl
 
-/-- **`Uint::inv_mod2k_vartime(k)`** (a `ConstCtOption`): panics EXACTLY when `k > BITS` -/
-theorem T11_2_invMod2kVartime (w a k : Nat) :
-    isPanic (invMod2kVartimeD w a k) = decide (w < k) := by
-  have h := vtLoop_isNone w a k 0 0 1 (Nat.zero_le _)
-  rw [Nat.zero_add] at h
-  unfold invMod2kVartimeD InvMod2k.invMod2kVartime
-  cases hv : InvMod2k.vtLoop w a k 0 0 1 with
-  | none => rw [hv] at h; simpa [isPanic] using h
-  | some x => rw [hv] at h; simpa [isPanic] using h
+/-- **`Uint::inv_mod2k_vartime(k)`** (a `ConstCtOption`) after fix 8dd1192: nothing is `expect`ed any more,
+    whatever `k` is (the statement is about the twin that mirrors the repaired code: `unwrap_or`) -/
+theorem T11_2_invMod2kVartime (w k : Nat) : isPanic (invMod2kVartimeD w k) = false := rfl
 
-/-- … so the documentation (no panic) is violated: witness `U64::from(3).inv_mod2k_vartime(65)` -/
-theorem T11_2_invMod2kVartime_witness :
-    panics (.uintInvMod2k 64 65) = false ∧ isPanic (invMod2kVartimeD 64 3 65) = true := by
+/-- before the fix it panicked EXACTLY when `k > BITS` … -/
+theorem T11_2_invMod2kVartimeOld (w k : Nat) :
+    isPanic (invMod2kVartimeOldD w k 0) = decide (w < k) := by
+  have h := invMod2kVartimeOldD_isPanic w k 0 (Nat.zero_le _)
+  rwa [Nat.zero_add] at h
+
+/-- … against the documentation: witness `U64::from(3).inv_mod2k_vartime(65)` (found by this check) -/
+theorem T11_2_invMod2kVartimeOld_witness :
+    panics (.uintInvMod2k 64 65) = false ∧ isPanic (invMod2kVartimeOldD 64 65 0) = true := by
   constructor
   · rfl
-  · rw [T11_2_invMod2kVartime]; decide
+  · rw [T11_2_invMod2kVartimeOld]; decide
 
-/-- **`Uint::inv_mod(a, modulus)`** (a `ConstCtOption`): the `expect("inverse mod 2^k exists")` fires
-    EXACTLY for `modulus = 0` (for a non-zero modulus the odd part `s` is odd, so its inverse exists) -/
-theorem T11_2_invMod {w : Nat} (hw : 0 < w) (a : Nat) {m : Nat} (hm : m < 2 ^ w) :
-    isPanic (invModD w a m) = decide (m = 0) := by
-  unfold invModD InvMod2k.invModWith
+/-- **`Uint::inv_mod(a, modulus)`** (a `ConstCtOption`) after fix be88d84: nothing is `expect`ed any more -/
+theorem T11_2_invMod (w m : Nat) : isPanic (invModExpectD w m) = false := rfl
+
+/-- before the fix the `expect("inverse mod 2^k exists")` fired EXACTLY for `modulus = 0` (for a non-zero
+    modulus the odd part `s` is odd, so its inverse mod `2^k` exists) … -/
+theorem T11_2_invModOld {w : Nat} (hw : 0 < w) {m : Nat} (hm : m < 2 ^ w) :
+    isPanic (invModExpectOldD w m) = decide (m = 0) := by
+  unfold invModExpectOldD
   by_cases h0 : m = 0
   · subst h0
-    have : InvMod2k.tz w 0 = w := tzNat_zero w
     have hw' : ¬ w = 0 := by omega
-    simp [this, InvMod2k.invMod2k, isPanic, hw']
-  · obtain ⟨h1, h2⟩ := tzNat_spec w m (by omega) hm
-    simp only [InvMod2k.tz]
-    simp [h1, InvMod2k.invMod2k, h2, isPanic, h0]
+    simp [tzW_zero w, check, isPanic, hw']
+  · obtain ⟨h1, h2⟩ := tzW_spec w m (by omega) hm
+    simp [h1, h2, check, isPanic, h0]
 
-/-- … so the documentation (no panic) is violated: witness `Uint::inv_mod(&3, &ZERO)` (DESIGN §7 row 8) -/
-theorem T11_2_invMod_witness :
-    panics (.uintInvMod 64 0) = false ∧ isPanic (invModD 64 3 0) = true := by
+/-- … against the documentation: witness `Uint::inv_mod(&3, &ZERO)` (DESIGN §7 row 8) -/
+theorem T11_2_invModOld_witness :
+    panics (.uintInvMod 64 0) = false ∧ isPanic (invModExpectOldD 64 0) = true := by
   constructor
   · rfl
-  · rw [T11_2_invMod (by decide) 3 (by decide)]; rfl
+  · rw [T11_2_invModOld (by decide) (by decide)]; rfl
+
+/-- **`BoxedUint::from_be_hex`** after fix 01d03c6 never yields a zero-limb value (the last public
+    constructor that did; a47b355 repaired `From<&[Limb]>`, `from_words` and parsing "0") -/
+theorem T11_2_boxedFromBeHexLimbs_pos (bitsPrecision : Nat) : 1 ≤ boxedFromBeHexLimbs bitsPrecision := by
+  unfold boxedFromBeHexLimbs; split <;> omega
+
+theorem T11_2_boxedFromBeHexLimbsOld_witness : boxedFromBeHexLimbsOld 0 = 0 := rfl
 
 /-- **`bits_vartime` on a limb slice**: no trap for a non-empty slice … -/
 theorem T11_2_bitsVartime (p : Profile) {l : List Nat} (h : l ≠ []) : isPanic (bitsVartimeD p l) = false := by
@@ -172,8 +180,8 @@ theorem T11_2_bitsVartime (p : Profile) {l : List Nat} (h : l ≠ []) : isPanic 
     Nat.lt_of_le_of_lt (bitsScan_le l _ _) (by omega)
   simp [bitsVartimeD, subU_ok p B hs, idx_ok hi, isPanic, bind, Except.bind, pure, Except.pure]
 
-/-- … and a panic in BOTH builds for the zero-limb `BoxedUint` (constructible through the public API:
-    DESIGN §7 row 5), although nothing documents one -/
+/-- … and a panic in BOTH builds on an EMPTY slice (a zero-limb `BoxedUint` was constructible through the
+    public API — DESIGN §7 row 5 — until a47b355 / 01d03c6; nothing documents this panic) -/
 theorem T11_2_bitsVartime_zero_limb_witness (p : Profile) :
     panics (.boxedMethod 0) = false ∧ isPanic (bitsVartimeD p []) = true := by
   cases p with | mk d => cases d <;> exact ⟨rfl, rfl⟩
@@ -236,16 +244,15 @@ theorem T11_D_boxedAssign (p : Profile) (selfLimbs rhsLimbs : Nat) :
 theorem T11_D_boxedAssignOld_witness :
     panics (.boxedAddAssign 1 2) = true ∧ isPanic (boxedAssignPrecisionOldD release 1 2) = false := ⟨rfl, rfl⟩
 
-/-- `BoxedUint::inv_mod`: the documented precision panic exists only with debug assertions -/
-theorem T11_D_boxedInvMod (selfLimbs modLimbs : Nat) :
-    isPanic (boxedInvModPrecisionD dbgchk selfLimbs modLimbs) = panics (.boxedInvMod selfLimbs modLimbs) ∧
-    isPanic (boxedInvModPrecisionD release selfLimbs modLimbs) = false := by
-  constructor
-  · by_cases h : selfLimbs = modLimbs <;> simp [boxedInvModPrecisionD, dassert, dbgchk, h, isPanic, panics]
-  · simp [boxedInvModPrecisionD, dassert_release, isPanic]
+/-- `BoxedUint::inv_mod` (after fix fb50dbc): panics exactly in the documented case (precisions differ), both builds -/
+theorem T11_D_boxedInvMod (p : Profile) (selfLimbs modLimbs : Nat) :
+    isPanic (boxedInvModPrecisionD p selfLimbs modLimbs) = panics (.boxedInvMod selfLimbs modLimbs) := by
+  by_cases h : selfLimbs = modLimbs <;> simp [boxedInvModPrecisionD, check, h, isPanic, panics]
 
-theorem T11_D_boxedInvMod_release_witness :
-    panics (.boxedInvMod 1 2) = true ∧ isPanic (boxedInvModPrecisionD release 1 2) = false := ⟨rfl, rfl⟩
+/-- before the fix the documented panic existed only with debug assertions (found by this check) -/
+theorem T11_D_boxedInvModOld_witness :
+    panics (.boxedInvMod 1 2) = true ∧ isPanic (boxedInvModPrecisionOldD release 1 2) = false ∧
+    isPanic (boxedInvModPrecisionOldD dbgchk 1 2) = true := ⟨rfl, rfl, rfl⟩
 
 /-- `BoxedUint::widen`: exactly the documented panic -/
 theorem T11_D_widen (curBits newBits : Nat) :
@@ -282,7 +289,7 @@ example : div3by2D dbgchk WMAX 3 9 Reciprocal.dflt 11 = .ok (div3by2 WMAX 3 9 Re
 example : shlLimbD dbgchk [WMAX, 1, HALF] 63 = .ok (Div.shlLimb [WMAX, 1, HALF] 63) :=
   T11_1_shlLimb dbgchk _ (by decide)
 
-example : isPanic (invModD 128 3 (2 ^ 100)) = false := by
-  rw [T11_2_invMod (by decide) 3 (by decide)]; decide
+example : isPanic (invModExpectOldD 128 (2 ^ 100)) = false := by
+  rw [T11_2_invModOld (by decide) (by decide)]; decide
 
 end CB.P11
